@@ -40,6 +40,62 @@ class LayoutError(Exception):
 # ---------------------------------------------------------------------------------------------------------
 # reading the headers
 # ---------------------------------------------------------------------------------------------------------
+def documented_payload_formats(repo, header, enum_name):
+    """{enumerator value: (enumerator name, text after "Payload format:" in its doc comment or None)} for one
+    `enum class` of a header: the C++ side's statement of what follows the fixed part for each type tag."""
+    try:
+        raw = open(os.path.join(repo, HEADER_DIR, header)).read()
+    except OSError:
+        return {}
+    m = re.search(r'enum\s+class\s+%s\b[^{;]*\{' % re.escape(enum_name), raw)
+    if not m:
+        return {}
+    end = raw.find('};', m.end())
+    out, fmt = {}, None
+    for line in raw[m.end():end if end >= 0 else len(raw)].splitlines():
+        mm = re.search(r'Payload format:\s*(.*)$', line)
+        if mm:
+            fmt = mm.group(1).strip()
+            continue
+        mm = re.match(r'\s*([A-Za-z_][A-Za-z0-9_]*)\s*=\s*(0x[0-9a-fA-F]+|\d+)\s*,?\s*(//.*)?$', line)
+        if mm:
+            out[int(mm.group(2), 0)] = (mm.group(1), fmt)
+            fmt = None
+    return out
+
+
+_SCALAR_FORMATS = {'bool': ('bool', 1), 'float': ('f', 4), 'double': ('f', 8), 'char': ('char', 1)}
+
+
+def resolve_payload_format(fmt, table):
+    """(kind, size in bytes, type name) of a documented payload format, with every struct / enum size taken from the
+    compiler's table; None when the text names nothing whose size is known. kind: u i f bool char enum struct none."""
+    if not fmt:
+        return None
+    if re.match(r'none\b', fmt):
+        return ('none', 0, 'none')
+    m = re.match(r'`(u?)int(8|16|32|64)_t`', fmt)
+    if m:
+        return ('u' if m.group(1) else 'i', int(m.group(2)) // 8, m.group(0).strip('`'))
+    m = re.match(r'`(bool|float|double)`', fmt)
+    if m:
+        k, w = _SCALAR_FORMATS[m.group(1)]
+        return (k, w, m.group(1))
+    m = re.match(r'`char\[(\d+)\]`', fmt)
+    if m:
+        return ('char', int(m.group(1)), 'char[%s]' % m.group(1))
+    m = re.match(r'@ref\s+(\w+)', fmt) or re.match(r'`(\w+)`', fmt)
+    if m:
+        name = m.group(1)
+        if name in table:
+            return ('struct', table[name]['sizeof'], name)
+        for s in table.values():
+            for mem in s['members']:
+                if mem.get('tname') == name and mem.get('elem_kind') == 'enum':
+                    return ('enum', mem['elem_size'], name)
+    return None
+
+
 def strip_comments(s):
     out = []
     i, n = 0, len(s)
